@@ -178,38 +178,31 @@ structure ElemEnvLaw {V B} (env : ElemEnv V B) : Prop where
   b64Inv : ∀ b, env.unb64 (env.b64 b) = some b
   codec : ∀ v, env.isScalar v = false → env.decode (env.asBytes v) (env.typeId v) (env.ext v) = some v
 
-theorem padRight_quoted (n : Nat) (s : Str) (t : List Char) :
-    ∃ k, padRight n ('"' :: s ++ ['"']) ++ t = '"' :: (s ++ '"' :: (List.replicate k ' ' ++ t)) := by
-  refine ⟨n - ('"' :: s ++ ['"']).length, ?_⟩
-  simp [padRight]
+/-- a quoted plain string padded to a column width, as the scanner sees it -/
+theorem quotedField (n : Nat) (s : Str) (h : plainStr s = true) (t : List Char) :
+    ∃ k t0, padRight n ('"' :: s ++ ['"']) ++ t = '"' :: t0 ∧ parseJStr t0 = some (s, List.replicate k ' ' ++ t) := by
+  refine ⟨n - ('"' :: s ++ ['"']).length, s ++ '"' :: (List.replicate (n - ('"' :: s ++ ['"']).length) ' ' ++ t), ?_, ?_⟩
+  · simp [padRight]
+  · exact parseJStr_plain s h _
+
+theorem skipWs_comma (t : List Char) : skipWs (',' :: t) = ',' :: t := skipWs_cons_of_not_ws (by decide) t
+theorem skipWs_quote (t : List Char) : skipWs ('"' :: t) = '"' :: t := skipWs_cons_of_not_ws (by decide) t
+theorem skipWs_rbracket (t : List Char) : skipWs (']' :: t) = ']' :: t := skipWs_cons_of_not_ws (by decide) t
+theorem skipWs_space (t : List Char) : skipWs (' ' :: t) = skipWs t := by simp [skipWs, isWs]
 
 /-- a base64 triple as written by `encode_element` is read back as three strings -/
 theorem parseTriple_tripleText (tid ext txt : Str) (h1 : plainStr tid = true) (h2 : plainStr ext = true)
     (h3 : plainStr txt = true) (rest : List Char) :
     ∃ t1, tripleText tid ext txt ++ rest = '[' :: t1 ∧ parseTriple t1 = some ((tid, ext, txt), rest) := by
-  obtain ⟨k1, e1⟩ := padRight_quoted 10 tid
-    ([',', ' '] ++ padRight 4 ('"' :: ext ++ ['"']) ++ [',', ' ', '"'] ++ txt ++ ['"', ']'] ++ rest)
-  obtain ⟨k2, e2⟩ := padRight_quoted 4 ext ([',', ' ', '"'] ++ txt ++ ['"', ']'] ++ rest)
-  refine ⟨_, by simp only [tripleText, List.cons_append, List.append_assoc]; rfl, ?_⟩
-  simp only [List.append_assoc] at e1 e2 ⊢
-  rw [e1, parseTriple, skipWs_cons_of_not_ws (by decide)]
-  simp only [parseJStr_plain tid h1]
-  rw [skipWs_replicate]
-  simp only [List.cons_append, List.nil_append]
-  rw [skipWs_cons_of_not_ws (by decide)]
-  simp only
-  rw [show skipWs (' ' :: (padRight 4 ('"' :: (ext ++ ['"'])) ++ (',' :: ' ' :: '"' :: (txt ++ ('"' :: ']' :: rest))))) =
-      skipWs (padRight 4 ('"' :: (ext ++ ['"'])) ++ (',' :: ' ' :: '"' :: (txt ++ ('"' :: ']' :: rest)))) by
-    simp [skipWs, isWs]]
-  simp only [List.cons_append, List.nil_append] at e2
-  rw [e2, skipWs_cons_of_not_ws (by decide)]
-  simp only [parseJStr_plain ext h2]
-  rw [skipWs_replicate, skipWs_cons_of_not_ws (by decide)]
-  simp only
-  rw [show skipWs (' ' :: '"' :: (txt ++ ('"' :: ']' :: rest))) = '"' :: (txt ++ ('"' :: ']' :: rest)) by
-    simp [skipWs, isWs]]
-  simp only [parseJStr_plain txt h3]
-  rw [skipWs_cons_of_not_ws (by decide)]
+  obtain ⟨k2, u2, e2, p2⟩ := quotedField 4 ext h2 (',' :: ' ' :: '"' :: (txt ++ '"' :: ']' :: rest))
+  obtain ⟨k1, u1, e1, p1⟩ := quotedField 10 tid h1
+    (',' :: ' ' :: (padRight 4 ('"' :: ext ++ ['"']) ++ (',' :: ' ' :: '"' :: (txt ++ '"' :: ']' :: rest))))
+  simp only [List.cons_append] at e1 e2 p1 p2
+  refine ⟨'"' :: u1, ?_, ?_⟩
+  · simp only [tripleText, List.cons_append, List.nil_append, List.append_assoc]
+    rw [e1]
+  · simp only [parseTriple, skipWs_quote, p1, skipWs_replicate, skipWs_comma, skipWs_space, e2, p2,
+      parseJStr_plain txt h3, skipWs_rbracket]
 
 /-- **C11 djson elements**: `encode_element` / `decode_element` (scalars as JSON, everything else as a
 `[type identifier, extension, base64]` triple handed to `decode_state_data`) satisfy the element law. -/
@@ -262,9 +255,9 @@ theorem demoEnv_law : ElemEnvLaw demoEnv where
   scalarParse := fun v rest hs _ => by
     have : v = true := hs
     subst this; rfl
-  tidPlain := fun _ => by decide
-  extPlain := fun _ => by decide
-  b64Plain := fun _ => by decide
+  tidPlain := fun _ => by simp only [demoEnv]; decide
+  extPlain := fun _ => by simp only [demoEnv]; decide
+  b64Plain := fun _ => by simp only [demoEnv]; decide
   b64Inv := fun _ => rfl
   codec := fun v hs => by
     have : v = false := hs
